@@ -3,8 +3,9 @@
 set -e
 cd "$(dirname "$0")"
 mkdir -p evidence replays
-for f in spec/MC_Exec.tla; do
-  (cd spec && java -cp /opt/veriftools/tla/tla2tools.jar:/opt/veriftools/tla/CommunityModules-deps.jar tla2sany.SANY "$(basename $f)" >/dev/null) || { echo "SANY failed on $f"; exit 1; }
+for f in spec/MC_*.tla spec/Trace_*.tla; do
+  (cd spec && java -cp /opt/veriftools/tla/tla2tools.jar:/opt/veriftools/tla/CommunityModules-deps.jar tla2sany.SANY "$(basename $f)" >/tmp/sany_$$.txt 2>&1) || { echo "SANY failed on $f"; cat /tmp/sany_$$.txt; rm -f /tmp/sany_$$.txt; exit 1; }
 done
+rm -f /tmp/sany_$$.txt
 /venv/bin/python -m compileall -q harness >/dev/null
 echo setup ok
